@@ -55,6 +55,8 @@ type Path struct {
 	funcsWithAddr []*FuncV
 	logCalls  int
 	failedHere bool
+	dom       map[*Term]*bitset
+	kb        map[*Term]kbits
 	lastSchedule []int
 }
 
@@ -101,6 +103,8 @@ type HarnessStats struct {
 	Transitions  int      `json:"sched_transitions,omitempty"`
 	Sample       string   `json:"sample,omitempty"`
 	NondetNames  []string `json:"nondets,omitempty"`
+	DomainDecided int     `json:"branches_decided_by_byte_domain"`
+	Infeasible   int      `json:"infeasible_panic_paths_discarded"`
 }
 
 type Interp struct {
@@ -142,6 +146,8 @@ type Interp struct {
 	extraFuncs []*FuncV
 	symStrHooks map[string]symStrHook
 	xWanted    int
+	noDomain   bool
+	approxDomain bool // accept 'both sides feasible' from the domains without asking the solver
 	fmtDepth   int
 	xPerHarness map[string]int
 	xsamples   []*XSample
@@ -180,6 +186,8 @@ func (p *Path) addPC(c *Term) {
 	}
 	p.pc = append(p.pc, c)
 	p.pcSet[c] = true
+	p.domNote(c)
+	p.kbNote(c)
 }
 
 func (p *Path) known(c *Term) (bool, bool) {
@@ -241,8 +249,41 @@ func (in *Interp) branch(c *Term, fr *frame) bool {
 	if len(p.dec) >= in.maxDecisions {
 		panic(pathAbort{"decision depth bound exceeded (unwinding failure) at " + fr.site()})
 	}
-	rt, _ := in.solver.Check(p.pc, c, nil)
 	d := &decision{n: 2}
+	ft, ff, ok := p.domDecide(c)
+	if !ok {
+		ft, ff, ok = p.kbDecide(c)
+	}
+	if ok && ft && ff && !in.approxDomain {
+		// the domain cannot decide; without approx mode the solver gives the exact answer
+		ok = false
+	}
+	if ok && !in.noDomain {
+		// decided by the value-set / known-bits domain, no solver call
+		in.stats.DomainDecided++
+		switch {
+		case ft && ff:
+			d.choice = 1
+			d.todo = []int{0}
+			in.stats.Forks++
+		case ft:
+			d.choice, d.forced = 1, true
+		default:
+			d.choice, d.forced = 0, true
+		}
+		p.dec = append(p.dec, d)
+		p.dpos++
+		if d.choice == 1 {
+			p.addPC(c)
+			return true
+		}
+		p.addPC(BNot(c))
+		return false
+	}
+	if os.Getenv("SYMGO_BRANCHDBG") != "" {
+		fmt.Fprintf(os.Stderr, "SOLVER-BRANCH at %s: %s\n", fr.site(), c.String())
+	}
+	rt, _ := in.solver.Check(p.pc, c, nil)
 	if rt == Unsat {
 		d.choice, d.forced = 0, true
 	} else {
@@ -581,6 +622,14 @@ func (in *Interp) onUncaughtPanic(gp *goPanic) {
 }
 
 func (in *Interp) reportViolation(id, class, site, kind, note string, extra *Term) {
+	if kind != "assert" {
+		// panics / races / deadlocks reached through over-approximated branch decisions
+		// only count if the path condition is satisfiable
+		if r, _ := in.solver.Check(in.path.pc, nil, nil); r == Unsat {
+			in.stats.Infeasible++
+			return
+		}
+	}
 	in.stats.Violated++
 	in.path.failedHere = true
 	key := id + "|" + class
